@@ -1,7 +1,7 @@
 import EnvVerif.Model.Interp
 open EnvVerif
 
-partial def loop (h : IO.FS.Stream) (out : IO.FS.Stream) (r : Regs) : IO Unit := do
+partial def loop (h : IO.FS.Stream) (out : IO.FS.Stream) (r : St) : IO Unit := do
   let line ← h.getLine
   if line.isEmpty then return ()
   let (r', o) := step r line
@@ -13,4 +13,4 @@ partial def loop (h : IO.FS.Stream) (out : IO.FS.Stream) (r : Regs) : IO Unit :=
 def main : IO Unit := do
   let stdin ← IO.getStdin
   let stdout ← IO.getStdout
-  loop stdin stdout []
+  loop stdin stdout {}
